@@ -271,6 +271,30 @@ def run(prog: Program, res: Result, tier: str) -> None:
                 res.ok("R2", mrg, sub, f"`{norm(sub)}`: " + ("taken in floating point" if as_float else "a square of a count (no overflow below 3e9 samples)"), key=key)
     if npow < 3:
         raise AnalysisError(f"only {npow} powers of a count found in add_online_moments (5 confirmed by hand)")
+    # a product of counts that is *materialised* (bound to a local) is an array of the counts' own int32: inside one array
+    # expression numba multiplies the scalars wide, as a statement of its own the product wraps at n_a * n_b = 2**31
+    def _kind(e: ast.AST) -> str:
+        """'int' for arithmetic on count fields and integer literals only, 'float' as soon as a moment field, a float literal, a true
+        division or a float conversion takes part."""
+        if isinstance(e, ast.Constant):
+            return "int" if isinstance(e.value, int) and not isinstance(e.value, bool) else "float"
+        if isinstance(e, ast.Subscript):
+            return "int" if isinstance(e.slice, ast.Constant) and e.slice.value == "count" else "float"
+        if isinstance(e, ast.UnaryOp):
+            return _kind(e.operand)
+        if isinstance(e, ast.BinOp):
+            if isinstance(e.op, ast.Div):
+                return "float"
+            return "int" if _kind(e.left) == "int" and _kind(e.right) == "int" else "float"
+        if isinstance(e, ast.Name):
+            ds_ = [d_ for d_ in fm.defs if d_.var == e.id and d_.kind == "assign" and d_.value is not None]
+            return _kind(ds_[0].value) if len(ds_) == 1 else "float"
+        return "float"
+    for st_ in body_walk(mrg.node):
+        if isinstance(st_, ast.Assign) and len(st_.targets) == 1 and isinstance(st_.targets[0], ast.Name) and _kind(st_.value) == "int" and \
+                any(isinstance(n_, ast.BinOp) and isinstance(n_.op, (ast.Mult, ast.Pow)) for n_ in ast.walk(st_.value)) and "count" in norm(st_.value):
+            res.bad("R2", mrg, st_, f"`{norm(st_)[:80]}` materialises a product of counts as an array of the counts' own int32: it wraps once n_a * n_b reaches 2**31 "
+                    "(two accumulators of ~46000 samples each), and the merged variance, skewness and kurtosis are garbage from there on", key=f"count-product:{norm(st_.targets[0])}")
     res.floor("R1", 8)
     res.floor("R2", 20 if tier == "thorough" else 19)
     res.floor("R3", 11)
@@ -324,7 +348,13 @@ MUTANTS += [
     {"id": "c10-revert-F60-skew", "file": "sigpyproc/core/stats.py", "expect": "C10.R4",
      "old": "            np.power(m2, 1.5),\n", "new": "            np.power(self._moments[\"m2\"], 1.5),\n"},
 ]
+MUTANTS += [
+    {"id": "c10-count-product-materialised", "file": "sigpyproc/core/kernels.py", "expect": "C10.R2",
+     "old": "    c[\"m2\"][:] = a[\"m2\"] + b[\"m2\"] + delta2 * a[\"count\"] * b[\"count\"] / c[\"count\"]", "new": "    npair = a[\"count\"] * b[\"count\"]\n    c[\"m2\"][:] = a[\"m2\"] + b[\"m2\"] + delta2 * npair / c[\"count\"]"},
+]
 TWINS = [
+    {"id": "c10-twin-count-product-float", "file": "sigpyproc/core/kernels.py",
+     "old": "    c[\"m2\"][:] = a[\"m2\"] + b[\"m2\"] + delta2 * a[\"count\"] * b[\"count\"] / c[\"count\"]", "new": "    npair = a[\"count\"].astype(np.float64) * b[\"count\"]\n    c[\"m2\"][:] = a[\"m2\"] + b[\"m2\"] + delta2 * npair / c[\"count\"]"},
     {"id": "c10-twin-kurtosis-float-power", "file": "sigpyproc/core/stats.py",
      "old": "                np.power(m2, 2.0),\n", "new": "                np.float_power(self._moments[\"m2\"], 2.0),\n"},
     {"id": "c10-twin-update-regroup", "file": KF,
